@@ -1,84 +1,2 @@
-(* GENERATED by harness/translate.py from fat.py, fs.py, path.py -- do not edit.
-   Regenerated on every check run from /repo's working tree. *)
-From Coq Require Import List NArith ZArith Bool String.
-Import ListNotations.
-
-Open Scope N_scope.
-Definition bpb_sizeof : N := 36%N.
-Definition bpb_jump_instruction : N * N := (0%N, 3%N).
-Definition bpb_oem_name : N * N := (3%N, 8%N).
-Definition bpb_bytes_per_sector : N * N := (11%N, 2%N).
-Definition bpb_sectors_per_cluster : N * N := (13%N, 1%N).
-Definition bpb_reserved_sectors : N * N := (14%N, 2%N).
-Definition bpb_fat_count : N * N := (16%N, 1%N).
-Definition bpb_max_root_entries : N * N := (17%N, 2%N).
-Definition bpb_fat16_total_sectors : N * N := (19%N, 2%N).
-Definition bpb_media_descriptor : N * N := (21%N, 1%N).
-Definition bpb_sectors_per_fat : N * N := (22%N, 2%N).
-Definition bpb_sectors_per_track : N * N := (24%N, 2%N).
-Definition bpb_heads_per_disk : N * N := (26%N, 2%N).
-Definition bpb_hidden_sectors : N * N := (28%N, 4%N).
-Definition bpb_fat32_total_sectors : N * N := (32%N, 4%N).
-Definition ebpb_sizeof : N := 26%N.
-Definition ebpb_drive_number : N * N := (0%N, 1%N).
-Definition ebpb_extended_boot_sig : N * N := (2%N, 1%N).
-Definition ebpb_volume_id : N * N := (3%N, 4%N).
-Definition ebpb_volume_label : N * N := (7%N, 11%N).
-Definition ebpb_file_system : N * N := (18%N, 8%N).
-Definition f32_sizeof : N := 28%N.
-Definition f32_sectors_per_fat : N * N := (0%N, 4%N).
-Definition f32_mirror_flags : N * N := (4%N, 2%N).
-Definition f32_version : N * N := (6%N, 2%N).
-Definition f32_root_dir_cluster : N * N := (8%N, 4%N).
-Definition f32_info_sector : N * N := (12%N, 2%N).
-Definition f32_backup_sector : N * N := (14%N, 2%N).
-Definition info_sizeof : N := 512%N.
-Definition info_sig1 : N * N := (0%N, 4%N).
-Definition info_reserved1 : N * N := (4%N, 480%N).
-Definition info_sig2 : N * N := (484%N, 4%N).
-Definition info_free_clusters : N * N := (488%N, 4%N).
-Definition info_last_alloc : N * N := (492%N, 4%N).
-Definition info_reserved2 : N * N := (496%N, 12%N).
-Definition info_sig3 : N * N := (508%N, 4%N).
-Definition de_sizeof : N := 32%N.
-Definition de_filename : N * N := (0%N, 8%N).
-Definition de_ext : N * N := (8%N, 3%N).
-Definition de_attr : N * N := (11%N, 1%N).
-Definition de_attr2 : N * N := (12%N, 1%N).
-Definition de_ctime_cs : N * N := (13%N, 1%N).
-Definition de_ctime : N * N := (14%N, 2%N).
-Definition de_cdate : N * N := (16%N, 2%N).
-Definition de_adate : N * N := (18%N, 2%N).
-Definition de_first_cluster_hi : N * N := (20%N, 2%N).
-Definition de_mtime : N * N := (22%N, 2%N).
-Definition de_mdate : N * N := (24%N, 2%N).
-Definition de_first_cluster_lo : N * N := (26%N, 2%N).
-Definition de_size : N * N := (28%N, 4%N).
-Definition lfn_sizeof : N := 32%N.
-Definition lfn_sequence : N * N := (0%N, 1%N).
-Definition lfn_name_1 : N * N := (1%N, 10%N).
-Definition lfn_attr : N * N := (11%N, 1%N).
-Definition lfn_checksum : N * N := (13%N, 1%N).
-Definition lfn_name_2 : N * N := (14%N, 12%N).
-Definition lfn_first_cluster : N * N := (26%N, 2%N).
-Definition lfn_name_3 : N * N := (28%N, 4%N).
-Definition lfn_checksum_standard : bool := true.
-Definition lfn_valid_guards_standard : bool := true.
-Definition lfn_valid_regex_text : list N := [94%N; 91%N; 94%N; 92%N; 120%N; 48%N; 48%N; 45%N; 92%N; 120%N; 49%N; 102%N; 34%N; 42%N; 47%N; 58%N; 60%N; 62%N; 63%N; 92%N; 92%N; 124%N; 93%N; 43%N; 92%N; 90%N].
-Definition lfn_valid_denied_chars : list N := [0%N; 1%N; 2%N; 3%N; 4%N; 5%N; 6%N; 7%N; 8%N; 9%N; 10%N; 11%N; 12%N; 13%N; 14%N; 15%N; 16%N; 17%N; 18%N; 19%N; 20%N; 21%N; 22%N; 23%N; 24%N; 25%N; 26%N; 27%N; 28%N; 29%N; 30%N; 31%N; 34%N; 42%N; 47%N; 58%N; 60%N; 62%N; 63%N; 92%N; 124%N].
-Definition lfn_valid_anchored_end : bool := true.
-Definition fat12_min_valid : N := 2%N.
-Definition fat12_max_valid : N := 4079%N.
-Definition fat12_end_mark : N := 4095%N.
-Definition fat16_min_valid : N := 2%N.
-Definition fat16_max_valid : N := 65519%N.
-Definition fat16_end_mark : N := 65535%N.
-Definition fat32_min_valid : N := 2%N.
-Definition fat32_max_valid : N := 268435439%N.
-Definition fat32_end_mark : N := 268435455%N.
-Definition max_sfn_suffix : N := 65535%N.
-Definition fat12_threshold : N := 4085%N.
-Definition fat16_threshold : N := 65525%N.
-Definition fat16_clean_bit : N := 32768%N.
-Definition fat32_clean_bit : N := 134217728%N.
-Definition fs_default_atime : bool := false.
+(* translation failed: TranslateError: fat_type_from_count thresholds *)
+Definition translation_failed : False := I.
